@@ -546,10 +546,18 @@ type evidence struct {
 	Violations  int            `json:"violations"`
 }
 
+// outDir: evidence and replays describe /repo; runs against another tree (VERIF_REPO, used for seeded changes) write elsewhere.
+func outDir(kind string) string {
+	if repoDir != "/repo" {
+		return filepath.Join(os.TempDir(), "vcheck-alt-"+kind)
+	}
+	return filepath.Join(verifDir, kind)
+}
+
 func writeEvidence(prop string, ev *evidence) {
-	_ = os.MkdirAll(filepath.Join(verifDir, "evidence"), 0o755)
+	_ = os.MkdirAll(outDir("evidence"), 0o755)
 	b, _ := json.MarshalIndent(ev, "", " ")
-	if err := os.WriteFile(filepath.Join(verifDir, "evidence", prop+".json"), append(b, '\n'), 0o644); err != nil {
+	if err := os.WriteFile(filepath.Join(outDir("evidence"), prop+".json"), append(b, '\n'), 0o644); err != nil {
 		die2("write evidence: %v", err)
 	}
 }
@@ -934,9 +942,9 @@ func minimiseAndWrite(b *build, prop, tier string, seed uint64, v Violation, r R
 	}
 	rf := replayFile{Property: prop, Rule: v.Rule, Sig: v.Sig, Msg: msg, Seed: seed, Idx: r.Idx, Tier: tier, TreeHash: b.treeHash,
 		Tape: minTape, Trace: strings.Split(strings.TrimRight(final.Trace, "\n"), "\n"), OrigLen: len(tape), MinExecs: m.execs}
-	_ = os.MkdirAll(filepath.Join(verifDir, "replays"), 0o755)
+	_ = os.MkdirAll(outDir("replays"), 0o755)
 	name := fmt.Sprintf("%s-%s-seed%d-run%d.json", prop, sanitize(v.Rule+"-"+v.Sig), seed, r.Idx)
-	path := filepath.Join(verifDir, "replays", name)
+	path := filepath.Join(outDir("replays"), name)
 	jb, _ := json.MarshalIndent(rf, "", " ")
 	if err := os.WriteFile(path, jb, 0o644); err != nil {
 		die2("write replay: %v", err)
